@@ -32,9 +32,18 @@ func (se *SpecEnv) evalBool(e *SpecExpr) *Term {
 	F := se.F()
 	// right-assoc implication chain
 	n := len(e.Parts)
+	// antecedents first: a clause whose guard is false on this path says nothing (its conclusion may not even be
+	// well-formed there, e.g. a field of a nil result)
+	ants := make([]*Term, n-1)
+	for i := 0; i < n-1; i++ {
+		ants[i] = se.boolOf(se.eval(e.Parts[i]), e.Src)
+		if ants[i].IsFalse() {
+			return F.True()
+		}
+	}
 	r := se.boolOf(se.eval(e.Parts[n-1]), e.Src)
 	for i := n - 2; i >= 0; i-- {
-		r = F.Imp(se.boolOf(se.eval(e.Parts[i]), e.Src), r)
+		r = F.Imp(ants[i], r)
 	}
 	return r
 }
@@ -118,6 +127,14 @@ func (se *SpecEnv) eval(e ast.Expr) Value {
 			return F.Or(se.eval(x.X).(*Term), se.eval(x.Y).(*Term))
 		}
 		a, b := se.rvalue(se.eval(x.X)), se.rvalue(se.eval(x.Y))
+		// a conditional lvalue compared with a scalar: read each alternative (nil alternatives yield an
+		// unconstrained value: the clause must guard them)
+		if _, bt := b.(*Term); bt {
+			a = se.readCond(a)
+		}
+		if _, at := a.(*Term); at {
+			b = se.readCond(b)
+		}
 		pva, pa := a.(*PtrV)
 		pvb, pb := b.(*PtrV)
 		scalarCells := false
@@ -691,6 +708,29 @@ func (se *SpecEnv) callSpec(c *ast.CallExpr) Value {
 		return se.fr.v.ringIsZero(targ(0))
 	case "inv":
 		return se.fr.v.ringInv(targ(0))
+	case "qof": // qof(name): the pinned modulus of the imported field package with that name (qof(fp))
+		id, ok := c.Args[0].(*ast.Ident)
+		if !ok || se.pkg == nil {
+			unsup("qof(<import name>)")
+		}
+		for _, imp := range se.pkg.Pkg.Imports() {
+			if imp.Name() == id.Name {
+				if sp := se.fr.v.prog.Package(imp); sp != nil {
+					if fp := se.fr.v.fieldParams(sp); fp != nil {
+						return F.Int(fp.Q)
+					}
+				}
+			}
+		}
+		unsup("qof(%s): not an imported field package with a pinned modulus", id.Name)
+	case "bigmod": // Euclidean remainder as computed by big.Int.Mod (uninterpreted)
+		return F.App("big.mod", SInt, targ(0), targ(1))
+	case "bigmodinv":
+		return F.App("big.modinv", SInt, targ(0), targ(1))
+	case "toint": // the integer denoted by a ring element (Element.BigInt)
+		return F.App("ring.toint", SInt, targ(0))
+	case "ofint":
+		return F.App("ring.ofint", SInt, targ(0))
 	case "rexp": // rexp(a, k): a^k in the ring for an integer k (uninterpreted, as Element.Exp is at the ring layer)
 		return F.App("ring.exp", SInt, targ(0), targ(1))
 	case "valw": // valw(w, t0, t1, ...): little-endian value of explicit w-bit words
@@ -823,4 +863,36 @@ func (se *SpecEnv) fieldParams() *FieldParams {
 		}
 	}
 	return nil
+}
+
+// readCond reads the scalar cells that the alternatives of a conditional lvalue denote.
+func (se *SpecEnv) readCond(x Value) Value {
+	iv, ok := x.(*IteV)
+	if !ok {
+		return x
+	}
+	rd := func(y Value) Value {
+		switch p := y.(type) {
+		case *IteV:
+			return se.readCond(p)
+		case *PtrV:
+			if p.Obj == nil {
+				se.fr.v.fresh++
+				return se.F().Var(fmt.Sprintf("nilfield!%d", se.fr.v.fresh), SInt)
+			}
+			if c := se.fr.v.content0(se.state(), p.Obj); c != nil {
+				if t, isT := se.fr.v.getPath(c, p.Path).(*Term); isT {
+					return t
+				}
+			}
+		}
+		return y
+	}
+	a, b := rd(iv.A), rd(iv.B)
+	at, ok1 := a.(*Term)
+	bt, ok2 := b.(*Term)
+	if ok1 && ok2 {
+		return se.F().Ite(iv.C, at, bt)
+	}
+	return &IteV{C: iv.C, A: a, B: b}
 }
